@@ -378,13 +378,23 @@ pub fn run_history(run: &Run<'_>, mut st: Option<&mut Stats>) -> Result<(), (Str
                     seen_calls += calls2.len();
                     let got2 = accepted_cells(&calls2);
                     let want2: Vec<Cell> = format!("next:{follow}").bytes().map(|b| (b, None, None)).collect();
-                    if r2.is_err() || got2 != want2 {
+                    // the follow-up hands over its own text, possibly preceded by text of the failed call that had not
+                    // been handed over yet (an implementation may hold a run back until it knows where it ends): that
+                    // text continues exactly where the failed call stopped, in its own colours, and nothing is repeated
+                    let mut want_chunk = vec![];
+                    let mut trial = refs.clone();
+                    trial.feed(chunk, &mut want_chunk);
+                    let delivered = carried.len() + got.len();
+                    let extra = got2.len().saturating_sub(want2.len());
+                    let own_ok = got2.len() >= want2.len() && got2[extra..] == want2[..];
+                    let extra_ok = delivered + extra <= want_chunk.len() && cells_eq(&got2[..extra], &want_chunk[delivered..delivered + extra], run.styles);
+                    if r2.is_err() || !own_ok || !extra_ok {
                         return Err((
                             format!("c18:{tag}:after-error"),
                             format!("after the failed call a formatted write of \"ESC[0mnext:{follow}\" returned {:?} and handed over {}, expected {}", r2.map_err(|e| e.kind()), show_cells(&got2), show_cells(&want2)),
                         ));
                     }
-                    expected.extend_from_slice(&want2);
+                    expected.extend_from_slice(&got2);
                     if let Some(st) = st.as_deref_mut() {
                         st.count("formatted_writes_after_a_failed_call");
                     }
